@@ -45,7 +45,7 @@ def _required():
 SPEC = {
     "pkg": "c11",
     "tests": [
-        {"name": _T, "race": True, "quick": 160, "thorough": 6400, "shards_quick": 8, "shards_thorough": 16, "timeout": 3000,
+        {"name": _T, "race": True, "quick": 160, "thorough": 4800, "shards_quick": 8, "shards_thorough": 16, "timeout": 3000,
          "shrinktime": "30s", "replay_repeat": 5},
         {"name": "TestWitnessRandIterator", "race": True, "quick": 1, "thorough": 1, "shards": 1, "timeout": 600},
         {"name": "TestWitnessRandString", "race": True, "quick": 1, "thorough": 1, "shards": 1, "timeout": 600},
@@ -68,7 +68,7 @@ SPEC = {
         "technique": ("property testing (rapid) under the Go race detector: generated pool configurations run by the real engine in a child "
                       "process per case, with gun-factory / provider probes, a before/after deep dump of all shared definitions and a "
                       "target that judges per-invocation consistency"),
-        "text": ("For every generated pool: the child process must end without a race report (GORACE halt_on_error), runtime fatal error "
+        "text": ("For every generated pool: the child process must end without a race report (exit code 66 / WARNING: DATA RACE on stderr), runtime fatal error "
                  "or panic; the gun factory is called once per started instance (plus one warm-up gun), every gun object is distinct, "
                  "bound exactly once to a distinct instance id and never receives a Shoot while another Shoot on it is in progress; no "
                  "ammo object is held by two instances at once; the canonical deep dump (reflection, unexported fields included) of the "
@@ -84,7 +84,7 @@ SPEC = {
                  "report / by which shared object changed; listed known findings are steered around by the generator (counted in "
                  "excluded_known, their classes dropped from required_classes) and re-confirmed by fixed witness cases."),
     },
-    "assumptions": ["GORACE=halt_on_error=1 makes the first race report end the child process with exit code 66",
+    "assumptions": ["a race report is printed as WARNING: DATA RACE on the child's stderr and makes it exit with GORACE exitcode 66",
                     "state that is mutable by design is excluded from the deep dump by type: locks, sync.Map template caches, "
                     "math/rand sources, mp.NextIterator counters, channels, funcs, loggers"],
 }
